@@ -45,6 +45,8 @@ def benign_variants():
         if os.path.exists(pp):
             mp = os.path.join(base, d, "meta.json")
             meta = json.load(open(mp)) if os.path.exists(mp) else {}
+            if meta.get("open"):
+                continue      # a known false alarm, listed as such in DESIGN §13.5b / §14 (not part of the silent corpus)
             # a redesign the rules cannot follow may leave a check undecided (exit 2, the check needs maintenance) —
             # recorded per patch with its reason; it must still never raise an alarm
             out.append(dict(name=f"benign {d}", rules=sorted(RULES), edits=[], patch=pp, names=[], expect="silent",
